@@ -61,6 +61,8 @@ def run(ctx):
             and dotted(up[0][2].func.value) == data and _c(up[0][2].args[0]) == b"\r\n\r\n" and len(assignments_to(f.node, bname)) == 1
         ctx.ob("R1", "AGREE", f, f"{kind}(body=...)", bool(good),
                f"body is the third component of {data}.partition(b'\\r\\n\\r\\n') (first occurrence), passed through no call" if good else f"body of {kind} is {src(b)}: not the untouched tail after the first CRLFCRLF", c)
+    rebound = [src(st)[:50] for st, v in assignments_to(f.node, data)]
+    ctx.ob("R1", "AGREE", f, f"{data} not rebound", not rebound, "the raw message is partitioned as received" if not rebound else f"the raw message is rewritten before it is split ({rebound}): the body is no longer byte-for-byte")
     fl = _unpack_of(f, "first_line")
     good = len(fl) == 1 and fl[0][1] == 0 and isinstance(fl[0][2], ast.Call) and fl[0][2].func.attr == "partition" and _c(fl[0][2].args[0]) == b"\r\n"
     head_src = dotted(fl[0][2].func.value) if good else None
